@@ -498,6 +498,16 @@ def _build_parent(p, genome):
     return GG.build_parent({"mode": m, "genome": genome, "seqname": "chr1", "window": p.get("window")})
 
 
+def _klass(kind, gen, want, strands):
+    """Coarse generator class (<= 12 in total, so that the evidence samples show one case of each); the fine histogram
+    (which level of the rule decided, parent kind, bounds kind) goes to the evidence counters `hist:*`."""
+    if want == "error":
+        return kind + "-several-flags"
+    if len(set(strands)) > 1:
+        return kind + "-mixed-strands"
+    return kind + "-" + gen.split("-")[0]
+
+
 def _ranks(vals):
     u = sorted(set(vals))
     return [u.index(v) for v in vals]
@@ -576,8 +586,9 @@ def _run_gene(case, ctx):
     modeclass = p["mode"]
     sig = ("gene", modeclass, tuple(zip(_ranks([t[1] for t in triples]), _ranks([t[2] for t in triples]), strands,
                                          [str(t[0]) for t in triples], [min(len(t["exons"]), 3) for t in txs])))
-    ctx.note(sig, nontrivial=n >= 2 or nflag >= 1,
-             klass=f"gene-{case['gen'].split('-')[0]}-" + ("multiflag" if want == "error" else why) + ("-mixed" if len(set(strands)) > 1 else ""))
+    ctx.note(sig, nontrivial=n >= 2 or nflag >= 1, klass=_klass("gene", case["gen"], want, strands))
+    ctx.bump(f"hist:gene-{case['gen'].split('-')[0]}-" + ("multiflag" if want == "error" else why) + ("-mixed" if len(set(strands)) > 1 else ""))
+    ctx.bump("hist:gene-parent-" + p["mode"])
     parent = _build_parent(p, genome)
     gene, exc = ctx.call(GG.build_gene, g, parent, "chr1")
     if want == "error":
@@ -686,8 +697,8 @@ def _run_fcoll(case, ctx):
     nflag = sum(1 for t in triples if t[0] is True)
     sig = ("fcoll", p["mode"], tuple(zip(_ranks([t[2] for t in triples]), strands, [str(t[0]) for t in triples], [len(f["blocks"]) for f in fs],
                                          [len(f["feature_types"]) for f in fs])))
-    ctx.note(sig, nontrivial=n >= 2 or nflag >= 1,
-             klass=f"fcoll-{case['gen']}-" + ("multiflag" if want == "error" else why) + ("-mixed" if len(set(strands)) > 1 else ""))
+    ctx.note(sig, nontrivial=n >= 2 or nflag >= 1, klass=_klass("fcoll", case["gen"], want, strands))
+    ctx.bump(f"hist:fcoll-{case['gen']}-" + ("multiflag" if want == "error" else why) + ("-mixed" if len(set(strands)) > 1 else ""))
     parent = _build_parent(p, genome)
     obj, exc = ctx.call(GG.build_fcoll, fc, parent, "chr1")
     if want == "error":
@@ -754,8 +765,8 @@ def _run_acoll(case, ctx):
     wb = m_bounds(explicit, p["mode"], p["glen"], p.get("window"), [(m[2], m[3]) for m in want_members])
     in_order = [m[2] for m in ([("g",) * 2 + tuple(GG.gene_span(g)) for g in c["genes"]] + [("f",) * 2 + tuple(GG.fcoll_span(f)) for f in c["fcolls"]])]
     sig = ("acoll", p["mode"], case["bounds"], ng, nf, tuple(_ranks(in_order)))
-    ctx.note(sig, nontrivial=total >= 2 or total == 0,
-             klass="acoll-" + ("empty" if total == 0 else ("start-ties" if ties else "distinct-starts")) + "-" + case["bounds"].split("-")[0])
+    ctx.note(sig, nontrivial=total >= 2 or total == 0, klass="acoll-" + ("empty" if total == 0 else ("start-ties" if ties else "distinct-starts")))
+    ctx.bump("hist:acoll-" + case["bounds"] + "-" + p["mode"])
     ac, exc = ctx.call(GG.build_collection, c, parent)
     if exc is not None:
         ctx.check("coll.order", False, key=("constructor-raised", type(exc).__name__, p["mode"], case["bounds"]), exc=repr(exc)[:200], **_raise_site(exc))
